@@ -101,6 +101,8 @@ class Kernel(object):
         self.seed = seed
         self._streams = {}
         self.policy = policy or ("sticky", 0.9)
+        self._pct = None
+        self._yield_hint = False
         self.replay_schedule = replay_schedule
         self._replay_pos = 0
         self.schedule = []  # recorded choices (task ids) at decision points
@@ -277,6 +279,28 @@ class Kernel(object):
                     chosen = run[rng.randrange(len(run))]
             elif kind == "serial":
                 chosen = cur if (cur is not None and cur in run) else run[0]
+            elif kind == "pct":
+                # priority scheduling with d change points (Burckhardt et al., PCT): every task
+                # has a random priority, the highest runnable one runs, and at d event numbers
+                # drawn in advance the running task drops below everybody else. Finds
+                # "A runs undisturbed up to exactly here, then B runs to completion" orderings.
+                if self._pct is None:
+                    d, horizon = self.policy[1], self.policy[2]
+                    self._pct = {"prio": {}, "low": 0,
+                                 "points": sorted(rng.randrange(horizon) for _ in range(d))}
+                st = self._pct
+                for t in run:
+                    if t.id not in st["prio"]:
+                        st["prio"][t.id] = 1.0 + rng.random()
+                if self._yield_hint and cur is not None:
+                    st["low"] -= 1
+                    st["prio"][cur.id] = float(st["low"])
+                while st["points"] and st["points"][0] <= self.seq:
+                    st["points"].pop(0)
+                    if cur is not None:
+                        st["low"] -= 1
+                        st["prio"][cur.id] = float(st["low"])
+                chosen = max(run, key=lambda t: (st["prio"][t.id], -t.id))
             else:
                 raise HarnessError("unknown policy %r" % (self.policy,))
         self.schedule.append(chosen.id)
@@ -398,7 +422,13 @@ class Kernel(object):
             cur.wait_desc = ""
 
     def sleep(self, seconds):
-        self.event("sleep", "%.6f" % seconds)
+        if seconds <= 0:
+            # sleep(0) is a yield: under priority scheduling the caller must not starve the rest
+            self._yield_hint = True
+        try:
+            self.event("sleep", "%.6f" % seconds)
+        finally:
+            self._yield_hint = False
         if seconds <= 0:
             return
         if len(self.tasks) == 1:
